@@ -100,7 +100,6 @@ contract(SR + 'represent_set', props=['C16'],
     requires=[], result='obj:yaml.nodes.MappingNode',
     ensures=["fresh(result) and result.tag == 'tag:yaml.org,2002:set'"],
     labels={0: 'set-tagged-mapping'},
-    invariants={0: ["typeis(value, 'dict') and fresh(value)", "forall(j, 0, loop_i, haskey(value, loop_seq[j]))"]},
     modifies=['self.represented_objects[]', 'self.object_keeper[]', 'self.alias_key'], raises=['TypeError'], raises_any=True)
 
 contract(SR + 'represent_dict', props=['C16'], requires=[], result='obj:yaml.nodes.MappingNode',
